@@ -137,6 +137,20 @@ def handle (args : List Sexp) : String :=
     | some op, some ds =>
       showR (if side == "left" then leftNested (assocTy op) ds else rightNested (assocTy op) ds)
     | _, _ => "err bad-args"
+  | [.atom "cinputsd", bound, ts] =>
+    let parseIn : Sexp → Option Inputs := fun t => do
+      let xs ← t.asList?
+      xs.mapM fun
+        | .list [k, d] => do
+            let k ← k.asStr?
+            let d ← parseDom d
+            pure (k, d)
+        | _ => none
+    match bound.asStrs?, ts.asList?.bind (·.mapM parseIn) with
+    | some b, some ts =>
+      "ok (" ++ " ".intercalate ((contractionInputsD b ts).map fun p => "(\"" ++ p.1 ++ "\" " ++ showDom p.2 ++ ")")
+        ++ ") " ++ (if consistent ts then "consistent" else "inconsistent")
+    | _, _ => "err bad-args"
   | [.atom "cinputs", bound, ts] =>
     match bound.asStrs?, ts.asList?.bind (·.mapM Sexp.asStrs?) with
     | some b, some ts => "ok " ++ toString (Sexp.list ((contractionInputs b ts).map Sexp.str))
